@@ -18,6 +18,7 @@ fn adapter(name: &str, variant: &str) -> Option<Box<dyn Adapter>> {
         "timelimiter" => Box::new(adapters::timelimiter::TimeLimiterAd::new()),
         "hedge" => Box::new(adapters::hedge::HedgeAd::new()),
         "cache" => Box::new(adapters::cache::CacheAd::new()),
+        "coalesce" => Box::new(adapters::coalesce::CoalesceAd::new()),
         "circuitbreaker" => Box::new(adapters::circuitbreaker::CbAd::new(variant)),
         _ => return None,
     })
